@@ -110,6 +110,18 @@ class Run:
                                          "time_s": round(sum(o["time"] for o in obs), 3), "desc": obs[0]["desc"][:300]})
                 if v == "failed":
                     bad = [o for o in obs if o["verdict"] == "failed"][0]
+                    # look for a concrete call of the real function on which the same clause fails (replayable input)
+                    found = None
+                    try:
+                        from checks import crosscheck
+                        found = crosscheck.find_failing_input(r["qualname"], modules, self.seed)
+                    except Exception:
+                        found = None
+                    if found is not None:
+                        self.violation(full, "obligation fails: %s; concrete call of the real function: %s" % (bad["desc"][:200], found[1][:200]), found[0],
+                                       {"line": bad["line"], "path": bad["trace"], "model": bad["model"], "backend": bad["backend"],
+                                        "function": r["qualname"], "file": r["file"]})
+                        continue
                     self.violation(full, "obligation fails: " + bad["desc"][:300], None,
                                    {"line": bad["line"], "path": bad["trace"], "model": bad["model"],
                                     "backend": bad["backend"], "function": r["qualname"], "file": r["file"]})
@@ -233,6 +245,11 @@ def replay_file(path):
         d = json.load(f)
     pid = d["property"]
     mod = importlib.import_module("checks.props.%s" % pid)
+    if isinstance(d.get("input"), dict) and d["input"].get("kind") == "crosscheck":
+        from checks import crosscheck
+        bad = crosscheck.replay_input(d["input"])
+        print("replay: %s on %s(%s): %s" % (d["obligation"], d["input"]["function"], d["input"]["kwargs"][:200], "STILL FAILS" if bad else "does not fail any more"))
+        return 1 if bad else 0
     if d.get("input") is None or not hasattr(mod, "replay"):
         print("replay: no concrete input recorded for %s (obligation %s); verifier output follows" % (pid, d["obligation"]))
         print(json.dumps(d.get("detail"), indent=1))
